@@ -112,7 +112,11 @@ cpdef match_schemas(w_schema, r_schema, named_schemas):
         elif w_type == r_type == "array":
             if match_types(w_schema["items"], r_schema["items"], named_schemas):
                 return r_schema
-        elif w_type in NAMED_TYPES and r_type in NAMED_TYPES:
+        elif (
+            w_type in NAMED_TYPES
+            and r_type in NAMED_TYPES
+            and (w_type == r_type or {w_type, r_type} == {"record", "error"})
+        ):
             if w_type == r_type == "fixed" and w_schema["size"] != r_schema["size"]:
                 raise SchemaResolutionError(
                     f"Schema mismatch: {w_schema} size is different than {r_schema} size"
